@@ -68,7 +68,7 @@ def judge(run: Run, case: dict, res: dict, stats):
     rec = {"case": cid, "files": res.get("layout", {}).get("files"), "tlc_case": {k: case[k] for k in case if k not in ("full", "doc2")}}
     if res["error"]:
         die(f"C09: concretiser/harness failure on {cid}:\n{res['error']}")
-    if res.get("runtime") is not None and case["kind"] != "root" and res["runtime"] != (case.get("guard", "none") == "none"):
+    if res.get("runtime") is not None and case["kind"] != "root" and res["runtime"] != (case.get("guard", "none") in ("none", "stubsig")):
         die(f"C09: concretisation of {cid}: runtime={res['runtime']} but the descriptor's guard is {case.get('guard')}")
     dref = res.get("docref")
     if dref:
